@@ -8,8 +8,12 @@ python3 tools/matrix.py --checks own --shard 1/2 --out findings/final/matrix1.js
 python3 tools/neutral.py --shard 0/3 --out findings/final/neutral0.json > findings/final/neutral0.log 2>&1 &
 python3 tools/neutral.py --shard 1/3 --out findings/final/neutral1.json > findings/final/neutral1.log 2>&1 &
 python3 tools/neutral.py --shard 2/3 --out findings/final/neutral2.json > findings/final/neutral2.log 2>&1 &
+if [ "$1" = "thorough" ]; then
+  bash tools/runall.sh thorough > findings/final/thorough.log 2>&1 &
+fi
 wait
 echo "== missed"; grep -h "missed" findings/final/matrix*.log
 echo "== does not apply"; grep -h "DOES NOT APPLY" findings/final/*.log
 echo "== alarms"; grep -h "ALARM" -A1 findings/final/neutral*.log
+echo "== thorough"; cat findings/final/thorough.log 2>/dev/null | cut -c1-200
 echo "== done"
